@@ -239,6 +239,14 @@ pub fn print_struct(prog: &Program, n: usize, out: &mut String) {
         e.replacen("{ ", &format!("{{ {magic_init}"), 1)
     };
     out.push_str(&format!("impl Default for R{n} {{ fn default() -> Self {{ {} }} }}\n", synth(DEFAULT_IMPL_BASE)));
+    // decoys: inherent functions named like the trait methods generated code calls, with
+    // compatible signatures and other values - generated code must never resolve to them
+    {
+        let d = synth(DECOY_BASE);
+        out.push_str(&format!(
+            "#[allow(dead_code, clippy::should_implement_trait)]\nimpl R{n} {{\n    pub fn default() -> Self {{ {d} }}\n    pub fn from_meta(_: &syn::Meta) -> darling::Result<Self> {{ Ok({d}) }}\n    pub fn from_list(_: &[darling::ast::NestedMeta]) -> darling::Result<Self> {{ Ok({d}) }}\n    pub fn from_nested_meta(_: &darling::ast::NestedMeta) -> darling::Result<Self> {{ Ok({d}) }}\n    pub fn from_word() -> darling::Result<Self> {{ Ok({d}) }}\n    pub fn from_none() -> Option<Self> {{ Some({d}) }}\n    pub fn from_string(_: &str) -> darling::Result<Self> {{ Ok({d}) }}\n    pub fn from_value(_: &syn::Lit) -> darling::Result<Self> {{ Ok({d}) }}\n    pub fn from_expr(_: &syn::Expr) -> darling::Result<Self> {{ Ok({d}) }}\n    pub fn from_derive_input(_: &syn::DeriveInput) -> darling::Result<Self> {{ Ok({d}) }}\n    pub fn from_field(_: &syn::Field) -> darling::Result<Self> {{ Ok({d}) }}\n    pub fn from_variant(_: &syn::Variant) -> darling::Result<Self> {{ Ok({d}) }}\n    pub fn from_type_param(_: &syn::TypeParam) -> darling::Result<Self> {{ Ok({d}) }}\n    pub fn from_attributes(_: &[syn::Attribute]) -> darling::Result<Self> {{ Ok({d}) }}\n    pub fn from<T>(_: T) -> Self {{ {d} }}\n    pub fn into(self) -> Self {{ {d} }}\n}}\n"
+        ));
+    }
     if s.dflt == Dflt::Fn {
         out.push_str(&format!("fn cdef_{n}() -> R{n} {{ {} }}\n", synth(CONTAINER_FN_BASE)));
     }
